@@ -413,8 +413,9 @@ def run_real(exe, progs, jobs=common.NCPU, timeout=60, args=()):
         return list(ex.map(one, progs))
 
 
-def run_model(progs, jobs=common.NCPU):
-    """batch the programs through `sigc_model run`; returns list of trace texts"""
+def run_model(progs, jobs=common.NCPU, mode="run"):
+    """batch the programs through `sigc_model run` (mechanism model) or `sigc_model spec` (statement-level
+    specification); returns list of trace texts"""
     drv = common.driver()
     n = len(progs)
     if n == 0:
@@ -424,7 +425,7 @@ def run_model(progs, jobs=common.NCPU):
 
     def one(idx):
         text = "".join("=== %d\n%s" % (i, progs[i] if progs[i].endswith("\n") else progs[i] + "\n") for i in idx)
-        r = subprocess.run([drv, "run"], input=text, stdout=subprocess.PIPE, stderr=subprocess.PIPE, text=True)
+        r = subprocess.run([drv, mode], input=text, stdout=subprocess.PIPE, stderr=subprocess.PIPE, text=True)
         res = {}
         cur = None
         for line in r.stdout.split("\n"):
@@ -459,15 +460,49 @@ def first_diff(a, b):
     return None
 
 
-def compare(exe, progs, jobs=common.NCPU, args=()):
-    """returns list of dicts {i, input, impl, model, verdict, diff}"""
+def spec_diff(impl, spec):
+    """first line where the implementation's trace is not allowed by the specification's
+    (`=> *` in the specification allows any result of that operation)"""
+    la, lb = canon(impl), canon(spec)
+    for i in range(max(len(la), len(lb))):
+        x = la[i] if i < len(la) else "<end>"
+        y = lb[i] if i < len(lb) else "<end>"
+        if x == y:
+            continue
+        if y.endswith(" => *") and x.rsplit(" => ", 1)[0] == y[:-5]:
+            continue
+        return i, x, y
+    return None
+
+
+def known_label(impl, spec_pure):
+    """which known finding explains a difference between the implementation and the pure specification"""
+    d = spec_diff(impl, spec_pure)
+    if d is None:
+        return None
+    words = (d[1].split(" ") + ["?", "?"])
+    op = words[1]
+    if op in ("size?", "emptyG?"):
+        return "K1 size()/empty() count a connected empty slot only until the next deferred sweep (at: %s)" % d[1]
+    return "K2 accumulated emission nested in an emission of the same list sees the outer end markers as extra positions (at: %s)" % d[1]
+
+
+def compare(exe, progs, jobs=common.NCPU, args=(), with_spec=True):
+    """returns list of dicts {i, input, impl, model, spec, verdict, diff (impl vs mechanism model),
+    sdiff (impl vs specification with the known findings K1/K2 reproduced), known (label or None:
+    the implementation differs from the pure specification exactly as a known finding says)}"""
     real = run_real(exe, progs, jobs, args=args)
     model = run_model(progs, jobs)
+    spec = run_model(progs, jobs, mode="spec-known") if with_spec else [None] * len(progs)
+    pure = run_model(progs, jobs, mode="spec") if with_spec else [None] * len(progs)
     res = []
     for i, p in enumerate(progs):
         out, verdict, err = real[i]
         d = first_diff(out, model[i])
-        res.append({"i": i, "input": p, "impl": out, "model": model[i], "verdict": verdict, "stderr": err, "diff": d})
+        sd = spec_diff(out, spec[i]) if with_spec else None
+        kn = known_label(out, pure[i]) if (with_spec and sd is None and verdict is None) else None
+        res.append({"i": i, "input": p, "impl": out, "model": model[i], "spec": spec[i], "verdict": verdict,
+                    "stderr": err, "diff": d, "sdiff": sd, "known": kn})
     return res
 
 
